@@ -77,6 +77,23 @@ impl verif_sync::Scheduler for Sched {
         assert!(l.g.is_none(), "seam lock {id:#x} acquired while held");
         l.g = Some(g);
     }
+    fn try_acquire(&self, id: usize) -> bool {
+        let m = self.t().entry(id).or_insert_with(|| Lock { m: Box::into_raw(Box::new(shuttle::sync::Mutex::new(()))), g: None }).m;
+        // shuttle's try_lock is a scheduling point and fails exactly when another task holds the guard
+        match unsafe { &*m }.try_lock() {
+            Ok(g) => {
+                let g: shuttle::sync::MutexGuard<'static, ()> = g;
+                let l = self.t().get_mut(&id).unwrap();
+                assert!(l.g.is_none(), "seam lock {id:#x} acquired while held");
+                l.g = Some(g);
+                true
+            }
+            Err(_) => {
+                self.contended.set(true);
+                false
+            }
+        }
+    }
     fn release(&self, id: usize) {
         let g = self.t().get_mut(&id).expect("release of an unknown seam lock").g.take();
         assert!(g.is_some(), "seam lock {id:#x} released while not held");
@@ -396,7 +413,7 @@ fn main() {
         "property_id": "C20", "engine": "shuttle 0.9.3 DfsScheduler (every schedule, no partial-order reduction) through the H1 sync seam (texlang built with --cfg texcraft_verif_sched)",
         "tier": tier, "complete": true, "exhaustive": violations == 0,
         "assertions": "per execution: all created tags pairwise distinct (incl. the tag behind the static tag), every get() returned the same value, no deadlock (shuttle), seam locks never acquired while held / released while free",
-        "scheduling_points": "seam acquire, seam release, thread spawn, thread join",
+        "scheduling_points": "seam acquire / try_acquire / release (locks, once cells, and before and after every single atomic operation), thread spawn, thread join",
         "configurations": conf_json, "schedules_total": total_schedules, "distinct_outcomes_total": total_outcomes,
         "violations": violations, "wall_s": (wall * 100.0).round() / 100.0,
     });
